@@ -150,6 +150,16 @@ func H_C16_variants() {
 	m2, e2 := NewMapXml(xi)
 	vAssert(e1 == nil && e2 == nil, "variants: both forms decode")
 	vAssert(vDeepEq(map[string]interface{}(m1), map[string]interface{}(m2)), "variants: the indented encoder differs from the compact one only in inter-element white space")
+	// a single key holding a list with a scalar member: both forms wrap it in the default root
+	lm := Map{"item": []interface{}{"first", map[string]interface{}{"x": "1"}}}
+	if vChoose(2) == 1 {
+		lm = Map{"item": []interface{}{map[string]interface{}{"x": "1"}, "last", map[string]interface{}{"y": "2"}}}
+	}
+	lx, _ := lm.Xml()
+	lxi, _ := lm.XmlIndent(prefix, indentStr)
+	d1, le1 := NewMapXml(lx)
+	d2, le2 := NewMapXml(lxi)
+	vAssert(le1 == nil && le2 == nil && vSingleRoot(lx) && vDeepEq(map[string]interface{}(d1), map[string]interface{}(d2)), "variants: a single-key Map whose list has a scalar member is one document in both forms")
 	w := &vWriter{}
 	vAssert(m.XmlWriter(w) == nil && vBytesEq(w.buf, x), "variants: XmlWriter writes exactly the bytes Xml returns")
 	w = &vWriter{}
